@@ -36,11 +36,61 @@ func c10TilesTok(ts []tlog.Tile) string {
 }
 
 // c10Fault: corruption `kind(a, b)` of the tile at (L, N).
+//
+// Input class "ragged length" (kinds extb / truncb, added for the gap r4-C10-b): the served tile is longer or shorter
+// than the true tile by a number of BYTES that is not a multiple of HashSize (1..31 bytes, or whole hashes plus 1..31
+// bytes). It was missing because every other kind works in whole hashes (trunc and ext drop / repeat whole hashes), so
+// the served length was always a multiple of HashSize and a length check that counts hashes instead of bytes, or any
+// code that slices a tile by hash positions and ignores a tail, could not be told from the exact check.
 type c10Fault struct {
 	L    int
 	N    int64
 	Kind string
 	A, B int
+}
+
+func (f c10Fault) ragged() bool { return f.Kind == "extb" || f.Kind == "truncb" }
+
+// c10NormFaults moves the ragged-length faults behind the others (stable). Only needed for the correspondence run: the
+// Lean environment (Drv/Tile.lean) keeps a tile as a list of hashes and turns it into flat bytes for a ragged fault
+// only, so the whole-hash kinds are exact only on data that is still a whole number of hashes.
+func c10NormFaults(fs []c10Fault) []c10Fault {
+	out := make([]c10Fault, 0, len(fs))
+	for _, f := range fs {
+		if !f.ragged() {
+			out = append(out, f)
+		}
+	}
+	for _, f := range fs {
+		if f.ragged() {
+			out = append(out, f)
+		}
+	}
+	return out
+}
+
+// c10RaggedFault draws a ragged-length fault for tile t: extension or truncation by r, or by k whole hashes plus r,
+// bytes with 1 <= r <= 31 (the boundary values 1 and 31 with weight).
+func c10RaggedFault(r *Rand, t tlog.Tile) c10Fault {
+	f := c10Fault{L: t.L, N: t.N, Kind: "extb", B: r.Intn(256)}
+	if r.Chance(50) {
+		f.Kind, f.B = "truncb", 0
+	}
+	f.A = 1 + r.Intn(tlog.HashSize-1)
+	switch r.Intn(5) {
+	case 0:
+		f.A = 1
+	case 1:
+		f.A = tlog.HashSize - 1
+	}
+	if r.Chance(25) {
+		w := t.W
+		if w < 1 {
+			w = 1
+		}
+		f.A += tlog.HashSize * (1 + r.Intn(w)) // truncb with k = W leaves nothing
+	}
+	return f
 }
 
 func (f c10Fault) tok() string { return fmt.Sprintf("%d:%d:%s:%d:%d", f.L, f.N, f.Kind, f.A, f.B) }
@@ -128,6 +178,16 @@ func (r *c10Reader) serve(t tlog.Tile) ([]byte, error) {
 					data = append(data, first...)
 				}
 			}
+		case "extb": // f.A bytes appended: B, B+1, … (mod 256); f.A need not be a multiple of HashSize
+			for i := 0; i < f.A; i++ {
+				data = append(data, byte(f.B+i))
+			}
+		case "truncb": // the last f.A bytes removed; f.A need not be a multiple of HashSize
+			k := len(data) - f.A
+			if k < 0 {
+				k = 0
+			}
+			data = data[:k]
 		case "repl":
 			other := t
 			other.L, other.N = f.A, int64(f.B)
@@ -300,7 +360,7 @@ func init() {
 		return res + " saved=" + r.savedTok()
 	}
 	register(&Prop{ID: "C10", Gen: genC10, Oracle: oracleC10,
-		Rule: "readhashes: every tree size N <= 40 (thorough 120), tile height h in {1,2,3} (thorough 1..5, plus sampled N < 1500 with h <= 8), every single stored-hash index honest, then sampled (index set, fault) pairs where the fault hits a tile that the honest read requests: flip one bit of one hash, swap / duplicate two hashes, truncate, extend, replace by the true tile of another coordinate, tile missing; one or two faults; index sets of size 0-4 including out-of-range indexes, N = 0, h = 0; readseq: histories of 2-4 ReadHashes calls through ONE TileHashReader value with per-call faults (honest then a corrupted re-fetch of a tile fetched before, a corrupted read retried, the index lists of TreeHash/ProveTree/ProveRecord, random); tileforindex / newtiles / hashfromtile / readtiledata / tilepath / parsetilepath with valid, mutated, boundary (int64 overflow in N, W = 2^H, leading zeros, signs, data tiles) and random inputs; non-trivial = at least one fault on a tile that is actually read, or a well-formed input / one mutation from one; distinct by op line"})
+		Rule: "readhashes: every tree size N <= 40 (thorough 120), tile height h in {1,2,3} (thorough 1..5, plus sampled N < 1500 with h <= 8), every single stored-hash index honest, then sampled (index set, fault) pairs where the fault hits a tile that the honest read requests: flip one bit of one hash, swap / duplicate two hashes, truncate, extend (whole hashes), lengthen / shorten by a number of bytes that is not a multiple of the hash size, replace by the true tile of another coordinate, tile missing; one or two faults; index sets of size 0-4 including out-of-range indexes, N = 0, h = 0; readseq: histories of 2-4 ReadHashes calls through ONE TileHashReader value with per-call faults (honest then a corrupted re-fetch of a tile fetched before, a corrupted read retried, the index lists of TreeHash/ProveTree/ProveRecord, random); tileforindex / newtiles / hashfromtile / readtiledata / tilepath / parsetilepath with valid, mutated, boundary (int64 overflow in N, W = 2^H, leading zeros, signs, data tiles) and random inputs; non-trivial = at least one fault on a tile that is actually read, or a well-formed input / one mutation from one; distinct by op line"})
 }
 
 // c10Honest returns the tiles an honest read of idx requests.
@@ -315,7 +375,9 @@ func c10RandFault(r *Rand, l *c10LogT, h int, t tlog.Tile) c10Fault {
 	if w < 1 {
 		w = 1
 	}
-	switch r.Intn(12) {
+	switch r.Intn(14) {
+	case 12, 13:
+		return c10RaggedFault(r, t)
 	case 0, 1, 2, 3, 4:
 		f.Kind, f.A, f.B = "flip", r.Intn(w), r.Intn(256)
 	case 5:
@@ -420,6 +482,16 @@ func genC10(g *Gen, n int) {
 	g.Emit(c10Op(0, 2, []int64{0}, nil, 1), true, "empty-tree")
 	g.Emit(c10Op(5, 0, []int64{0}, nil, 1), true, "height-0")
 	g.Emit(c10Op(5, 0, nil, nil, 1), true, "height-0")
+	// fixed, ragged length (same tree as the fixed histories of util_c10seq.go): N = 21, h = 2, index 0 fetches the
+	// tree-hash tiles (L2, N0, w1), (L1, N1, w1), (L0, N5, w1) and the full tiles (L1, N0), (L0, N0), each authenticated
+	// against its parent; every fetched tile longer / shorter by 1, 31 and 32+1 bytes
+	for _, t := range [][2]int{{2, 0}, {1, 1}, {0, 5}, {1, 0}, {0, 0}} {
+		for _, kind := range []string{"extb", "truncb"} {
+			for _, a := range []int{1, 31, 33} {
+				g.Emit(c10Op(21, 2, []int64{0}, []c10Fault{{L: t[0], N: int64(t[1]), Kind: kind, A: a, B: 0x5a}}, 1), true, "fault-"+kind)
+			}
+		}
+	}
 	// part 1: every (N, h, single index), honest
 	budget := n
 	type cfg struct{ n, h int }
@@ -485,7 +557,7 @@ func genC10(g *Gen, n int) {
 		if len(fs) > 0 {
 			tag = "fault-" + fs[0].Kind
 		}
-		g.Emit(c10Op(c.n, c.h, idx, fs, seed), nontrivial, tag)
+		g.Emit(c10Op(c.n, c.h, idx, c10NormFaults(fs), seed), nontrivial, tag)
 		budget--
 	}
 	// part 3: the other tile functions
@@ -651,6 +723,13 @@ func oracleC10(g *Gen, n int) {
 	exhaustive := func(N, h, seed int, everyHash bool) {
 		l := c10Log(seed, N)
 		max := tlog.StoredHashIndex(0, int64(N))
+		// the tiles that support the tree hash (fetched by every read, also one of no index); every other fetched tile
+		// is authenticated against its parent
+		stx := map[tlog.Tile]bool{}
+		for _, t := range c10Honest(l, h, nil) {
+			stx[t] = true
+		}
+		raggedDone := map[tlog.Tile]bool{}
 		for x := int64(0); x < max; x++ {
 			idx := []int64{x}
 			g.Case("honest-single")
@@ -670,6 +749,25 @@ func oracleC10(g *Gen, n int) {
 				g.Case(f.Kind)
 				cases++
 				c10CheckRead(g, l, N, h, idx, []c10Fault{f}, seed)
+				// ragged length, structured sweep: every distinct tile of this (N, h) once (what happens to a tile of a
+				// wrong length does not depend on the index asked for), in both roles, longer and shorter by 1, by 31, by
+				// a random 2..30 and by whole hashes plus 1..31 bytes
+				if raggedDone[t] {
+					continue
+				}
+				raggedDone[t] = true
+				role := "-auth"
+				if stx[t] {
+					role = "-stx"
+				}
+				S := tlog.HashSize
+				for _, kind := range []string{"extb", "truncb"} {
+					for _, a := range []int{1, S - 1, 2 + g.Intn(S-3), S*(1+g.Intn(t.W+1)) + 1 + g.Intn(S-1)} {
+						g.Case(kind + role)
+						cases++
+						c10CheckRead(g, l, N, h, idx, []c10Fault{{L: t.L, N: t.N, Kind: kind, A: a, B: g.Intn(256)}}, seed)
+					}
+				}
 			}
 		}
 	}
